@@ -46,6 +46,24 @@ _dispatch_verif_timeout(dispatch_time_t when)
 	return _dispatch_timeout(when);
 }
 
+/* read-only view of a queue's identity fields for the test harnesses */
+DV_EXPORT void
+_dispatch_verif_queue_peek(dispatch_queue_t dq, uint16_t *width,
+		uint64_t *state, uint32_t *priority, const char **target_label)
+{
+	*width = dq->dq_width;
+	*state = os_atomic_load2o(dq, dq_state, relaxed);
+	*priority = dq->dq_priority;
+	*target_label = dq->do_targetq && dq->do_targetq->dq_label ?
+			dq->do_targetq->dq_label : "";
+}
+
+DV_EXPORT volatile void *
+_dispatch_verif_queue_state_addr(dispatch_queue_t dq)
+{
+	return &dq->dq_state;
+}
+
 enum {
 	DV_DQ_DRAIN_TRY_LOCK = 1,      // arg = invoke flags; ret = owned
 	DV_DQ_TRY_ACQUIRE_BARRIER_SYNC,// arg = tid; ret = bool
